@@ -4,5 +4,12 @@ package main
 func init() {
 	Register("C04", []Target{
 		{Pkg: ".../internal/pkix", Func: "IsSubsetDN"},
+		{Pkg: ".../internal/pkix", Func: "ParseDistinguishedName", Oracle: true},
+		{Pkg: ".../internal/slices", Func: "Contains"},
+		{Pkg: "crypto/x509", Type: "Certificate", Opaque: true, Views: map[string]string{"Subject.String()": "string"}},
+		{Pkg: ".../verifier", Func: "verifyX509TrustedIdentities"},
+		{Pkg: ".../verifier", Func: "isCriticalFailure", NonNil: true},
+		{Pkg: ".../verifier/trustpolicy", Func: "validateOverlappingDNs"},
+		{Pkg: ".../verifier/trustpolicy", Func: "validateTrustedIdentities"},
 	})
 }
